@@ -127,6 +127,41 @@ def run(ctx):
         if not (s1 == "ok" and sq == nq):
             R.violation({"op": "setq", "layout": 16 if g else 8}, f"quantity set to {nq} is stored as {sq}", {"op": "setq", "tv": tv, "effect_type": et, "object_attributes": oa, "new": nq})
 
+    # ---- (b2) effect re-targeted after creation (effect_type / object_attributes assigned later) ------------
+    def do_retarget(tv, g, et0, oa0, et, oa, c, a, v):
+        set_tv(tv)
+        k = 16 if g else 8
+        cmd = f"retarget {g} {so(et0)} {so(oa0)} {so(et)} {so(oa)} {c} {a} {v}"
+        st, e = common.outcome(lambda: Eff(effect_type=et0, object_attributes=oa0))
+        if st != "ok":
+            add(cmd, "error", ("retarget",)); return
+        import warnings
+        with warnings.catch_warnings():
+            warnings.simplefilter("ignore")
+            e.effect_type = et
+            e.object_attributes = oa
+            e.armour_attack_class = c
+            e.armour_attack_quantity = a
+            e.variable = v
+        src = e._armour_attack_source or "none"
+        s1, sq = common.outcome(lambda: e.quantity)
+        s2, sv = common.outcome(lambda: e._variable_ref)
+        add(cmd, f"src={src} q={so(sq) if s1 == 'ok' else 'error'} v={so(sv) if s2 == 'ok' else 'error'}", ("retarget", tv, et0, oa0, et, oa, c, a, v))
+        fam_q = (et in [int(x) for x in AA]) or (et in [int(x) for x in PQ] and oa in [int(x) for x in ATTRS])
+        fam_v = (et in [int(x) for x in PV] and oa in [int(x) for x in ATTRS])
+        R.case(key=("retarget", g, et0, oa0, et, oa, c, a, v), nontrivial=(fam_q or fam_v), tags=("retarget:" + ("q" if fam_q else "v" if fam_v else "plain"),))
+        good = True
+        if fam_q:
+            good = s1 == "ok" and sq == c * 2 ** k + a
+        elif fam_v:
+            good = s2 == "ok" and sv == c * 2 ** k + v
+        else:
+            good = s2 == "ok" and sv == v
+        if not good:
+            R.violation({"op": "retarget", "form": "quantity" if fam_q else "variable" if fam_v else "plain", "layout": k},
+                        f"effect created as ({et0},{oa0}) and re-targeted to ({et},{oa}) with class {c}, amount {a}, variable {v} stores quantity={sq} variable={sv}",
+                        {"op": "retarget", "tv": tv, "from": [et0, oa0], "to": [et, oa], "class": c, "amount": a, "variable": v})
+
     # corpus first
     for c in ctx.corpus():
         rp = c.get("replay", c)
@@ -175,6 +210,16 @@ def run(ctx):
     for _ in range(n // 4):
         tv, g = rng.choice([(2.4, 0), (2.5, 1)])
         do_setq(tv, g, rng.choice(types[:7]), rng.choice(oas[:3]), rng.randrange(0, 2 ** 20), rng.randrange(0, 1000), rng.randrange(-2 ** 20, 2 ** 31))
+
+    fam_types = [int(x) for x in AA + PQ + PV]
+    plain_types = [int(EffectId.SEND_CHAT), int(EffectId.CREATE_OBJECT)]
+    attr_vals = [int(ATTRS[0]), int(ATTRS[1]), int(ObjectAttribute.HIT_POINTS), -1]
+    for et0 in fam_types + plain_types:
+        for oa0 in attr_vals:
+            for et in fam_types + plain_types[:1]:
+                for oa in attr_vals[:3]:
+                    tv, g = rng.choice([(2.4, 0), (2.5, 1), (3.9, 1)])
+                    do_retarget(tv, g, et0, oa0, et, oa, rng.randrange(256), rng.randrange(256), rng.randrange(256))
 
     # ---- correspondence: diff against the Lean model ---------------------------------------------------
     drv = ctx.driver()
